@@ -30,14 +30,14 @@ def _source_extensions(repo: Path):
         raise ValueError("is_source_file not found exactly once")
     fn = fns[0]
     body = [s for s in fn.body if not (isinstance(s, ast.Expr) and isinstance(s.value, ast.Constant))]
-    # shape:  if not isinstance...: raise ; extension = Path(filename).suffix ;
+    # shape:  if not isinstance...: raise ; extension = os.path.splitext(filename)[1] ;
     #         supported_extensions = [...] ; return extension in supported_extensions
     if len(body) != 4:
         raise ValueError(f"is_source_file: expected 4 statements, found {len(body)}")
     guard, a_ext, a_sup, ret = body
     if not (isinstance(guard, ast.If) and len(guard.body) == 1 and isinstance(guard.body[0], ast.Raise) and not guard.orelse):
         raise ValueError("is_source_file: first statement is not the type guard")
-    want_ext = "extension = Path(filename).suffix"
+    want_ext = "extension = os.path.splitext(filename)[1]"      # modelled by Model/C09.v : splitext_ext
     if ast.unparse(a_ext) != want_ext:
         raise ValueError(f"is_source_file: expected `{want_ext}`, found `{ast.unparse(a_ext)}`")
     if not (isinstance(a_sup, ast.Assign) and len(a_sup.targets) == 1
